@@ -166,7 +166,7 @@ def evalArith (enumSize : Str → Option Nat) (op : ArOp) (l r : Val) : Except M
     if op == .add || op == .sub then
       let left : Int := if swapped then k else idx
       let right : Int := if swapped then idx else k
-      let res := wrap64 (if op == .add then left + right else left - right)
+      let res : Int := if op == .add then left + right else left - right
       match enumSize ty with
       | some n => if n == 0 then .error .other else .ok (.enum ty (enumShift n res))
       | none => .error .notDefined
@@ -214,7 +214,7 @@ def evalCmp (op : CmpOp) (l r : Val) : Except Msg Val :=
   | .real x, .real y => .ok (.bool (cmpReal op x y))
   | _, _ =>
     if op != .eq && op != .ne then .error .typeMismatch
-    else if l'.ty.ctorIdx != r'.ty.ctorIdx then .ok (eqRes op false)
+    else if l'.ty != r'.ty then .ok (eqRes op false)
     else match l', r' with
       | .bool a, .bool b => .ok (eqRes op (a == b))
       | .str a, .str b => .ok (eqRes op (a == b))
